@@ -97,6 +97,7 @@ func main() {
 			agg.Require("nodes_triggered_after_receiving", 100)
 			agg.Require("keys_messages", 500)
 			agg.Require("access_node_accepts", 100)
+			agg.Require("schedules_with_a_repeated_identity", 10)
 		},
 	})
 }
@@ -211,6 +212,9 @@ func runCase(env *vlib.Env, idx int, rep *vlib.Reporter) {
 	t := 1 + r.Intn(n)
 	w := gossipnet.NewWorld(env.Seed+uint64(idx%5), n, t)
 	nid := 1 + r.Intn(2)
+	if p.flavour == gossipnet.Gnosis {
+		nid = 1 + r.Intn(4)
+	}
 	net, err := newNetwork(ctx, w, p.flavour, nid, r.Split())
 	if err != nil {
 		rep.Inconclusive(err.Error())
@@ -264,16 +268,17 @@ func runCase(env *vlib.Env, idx int, rep *vlib.Reporter) {
 // ---- network --------------------------------------------------------------------------------
 
 type network struct {
-	prio   []int
-	w      *gossipnet.World
-	f      gossipnet.Flavour
-	nodes  []*gossipnet.Node
-	access *gossipnet.Node
-	snaps  []interface{}
-	ids    [][]byte
-	slot   uint64
-	r      *vlib.Rng
-	base   []*snapshotHolder
+	repeated bool // the identity list contains one preimage twice
+	prio     []int
+	w        *gossipnet.World
+	f        gossipnet.Flavour
+	nodes    []*gossipnet.Node
+	access   *gossipnet.Node
+	snaps    []interface{}
+	ids      [][]byte
+	slot     uint64
+	r        *vlib.Rng
+	base     []*snapshotHolder
 }
 
 type snapshotHolder struct{ restore func() }
@@ -295,10 +300,18 @@ func newNetwork(ctx context.Context, w *gossipnet.World, f gossipnet.Flavour, ni
 		net.access = a
 		// gnosis identities come from the slot and the synced queue
 		var ids [][]byte
+		var lastPfx, lastSender []byte
 		for k := 0; k < nid-1; k++ {
 			pfx := r.Bytes(32)
 			pfx[0] |= 1
 			sender := r.Bytes(20)
+			if k > 0 && r.Chance(1, 2) {
+				// the same sender submits a second transaction under the same prefix: the identity
+				// preimage appears twice in the slot's list
+				pfx, sender = lastPfx, lastSender
+				net.repeated = true
+			}
+			lastPfx, lastSender = pfx, sender
 			for _, n := range net.nodes {
 				_, err := gnosisdb.New(n.Pool).InsertTransactionSubmittedEvent(ctx, gnosisdb.InsertTransactionSubmittedEventParams{Index: int64(k), BlockNumber: 5, BlockHash: []byte{1}, LogIndex: int64(k),
 					Eon: w.CfgIndex, IdentityPrefix: pfx, Sender: "0x" + fmt.Sprintf("%x", sender), GasLimit: 21000})
@@ -339,6 +352,10 @@ func (net *network) run(ctx context.Context, rep *vlib.Reporter, set []int, loca
 		}
 	}()
 	desc := fmt.Sprintf("%s n=%d t=%d triggered=%v local=%v keys=%s ids=%d", net.f, n, net.w.T, set, local, keysMode, len(net.ids))
+	if net.repeated {
+		desc += " (one identity twice)"
+		rep.Obs("schedules_with_a_repeated_identity", 1)
+	}
 	shares := make([]*gossipnet.Sent, n) // the shares message each triggered node produced
 	pos := make([]int, n)
 	var pendingKeys []struct {
